@@ -6,8 +6,10 @@ SPEC = dict(
     prop='C05',
     corr=[('check-cases', 6, 16, ['-n', '5', '-na', '80', '-profile', 'pure'], ('_dc', '_acc'))],
     oracles=[('check-oracle',
-              [['-n', '120', '-seed', '{seed}', '-profile', 'pure', '-shrinkms', ms] for ms in ('2', '10', '50', '300')],
-              [['-n', '600', '-seed', '{seed}', '-profile', 'pure', '-shrinkms', '2000'] for _ in range(16)])],
+              [['-n', '120', '-seed', '{seed}', '-profile', 'pure', '-shrinkms', ms] for ms in ('2', '10', '50', '300')] +
+              [['-n', '120', '-seed', '{seed}', '-profile', 'cleanups', '-shrinkms', ms] for ms in ('20', '100')],
+              [['-n', '600', '-seed', '{seed}', '-profile', 'pure', '-shrinkms', '2000'] for _ in range(12)] +
+              [['-n', '400', '-seed', '{seed}', '-profile', 'cleanups', '-shrinkms', '300'] for _ in range(4)])],
     oracle_props=['C05'],
     partial=['tracebacks are capped at 32 frames in the code; model sites are unbounded (harness programs stay below the cap)',
              'termination of the concrete passes between two accepts (each pass is a finite loop over the current data/groups) is not modelled; the theorem gives: only finitely many accepts',
